@@ -133,6 +133,9 @@ def exported_names(csrc):
 
 
 def do_generate(setname, info, v, idx):
+    if "shared_dest" in info and not str(idx).startswith("again_"):
+        # sets written by one call share a directory that is named after the option vector (not the enumeration index)
+        idx = "opt_" + "".join("%d" % int(v[k]) for k in sorted(v))
     dest = os.path.join(S["tmp"], "%s_%s" % (info.get("shared_dest", setname), idx))
     os.makedirs(dest, exist_ok=True)
     try:
